@@ -36,6 +36,9 @@ def source_of(case):
         if case.get('style') is not None:
             style = render.Style(case['style'], case.get('rules') or render.ALL_RULES)
         text, rr = render.render(prog, style)
+        if case.get('reuse'):
+            text, nre = render.reuse_names(text)
+            prog['features'] = sorted(set(prog['features']) | ({'names-reused-across-routines'} if nre else set()))
         return text, gen_script(case['seed'] + case.get('script', 0)), {'prog': prog, 'render': rr}
     if k == 'repo':
         sn = snippets()[case['idx']]
